@@ -4,6 +4,7 @@
 package mon
 
 import (
+	"bytes"
 	"fmt"
 	"net/http"
 	"net/url"
@@ -198,9 +199,67 @@ func sigReq(in *Info) string {
 
 // ---- C02 -----------------------------------------------------------------
 
+// storedValidators reads ETag and Last-Modified of the entry the cache looked
+// up in this exchange from the bytes the store returned (ok=false if no entry
+// was read or its header block cannot be found).
+func storedValidators(ex *sim.Exchange) (etag, lastMod string, ok bool) {
+	for _, op := range ex.StoreOps {
+		if op.Op != "get" || !op.Fg || op.Err != "" || op.Fault != "" {
+			continue
+		}
+		i := bytes.Index(op.Value, []byte("HTTP/"))
+		j := bytes.Index(op.Value, []byte("\r\n\r\n"))
+		if i < 0 || j < i {
+			continue
+		}
+		etag, lastMod, ok = "", "", true
+		for _, line := range strings.Split(string(op.Value[i:j]), "\r\n")[1:] {
+			name, val, found := strings.Cut(line, ":")
+			if !found {
+				continue
+			}
+			switch strings.ToLower(strings.TrimSpace(name)) {
+			case "etag":
+				etag = strings.TrimSpace(val)
+			case "last-modified":
+				lastMod = strings.TrimSpace(val)
+			}
+		}
+	}
+	return
+}
+
+// C02Validated304: a stored response returned after a 304 was really
+// validated only if the precondition the origin evaluated - If-None-Match, or
+// If-Modified-Since in its absence - was copied from the stored response, not
+// sent by the client on its own behalf.
+func C02Validated304(in *Info) (vs []V) {
+	ex := in.Ex
+	if !in.FromStore || !in.Got304 || ex.Status == 304 {
+		return nil
+	}
+	etag, lastMod, ok := storedValidators(ex)
+	if !ok {
+		return nil
+	}
+	for _, c := range in.FgCalls {
+		if c.Reply == nil || c.Reply.Status != 304 {
+			continue
+		}
+		inm, ims := c.Header.Get("If-None-Match"), c.Header.Get("If-Modified-Since")
+		valid := inm != "" && etag != "" && inm == etag || inm == "" && ims != "" && lastMod != "" && ims == lastMod
+		if !valid {
+			vs = append(vs, V{"C02", "304-not-about-the-stored-response", fmt.Sprintf("stored-etag=%v,stored-lm=%v,sent-inm=%v", etag != "", lastMod != "", inm != ""),
+				fmt.Sprintf("the stored response (ETag %q, Last-Modified %q) was returned as validated, but the 304 answered If-None-Match %q / If-Modified-Since %q, which were not copied from it; %s", etag, lastMod, inm, ims, ex.Summary())})
+		}
+	}
+	return vs
+}
+
 // C02 flags reuse without validation where validation is required.
 func C02(in *Info) (vs []V, antecedent bool) {
 	ex := in.Ex
+	vs = append(vs, C02Validated304(in)...)
 	if in.FromStore && !in.Got304 {
 		nc := in.StCC.NoCacheResp()
 		sieWindow := false
@@ -242,6 +301,9 @@ func C02(in *Info) (vs []V, antecedent bool) {
 			}
 		}
 		for _, f := range nc.Fields {
+			if f == "Age" || f == "X-Httpcache-Status" || f == "X-From-Cache" {
+				continue // the cache's own fields are generated, not replayed
+			}
 			if len(ex.Header.Values(f)) > 0 {
 				antecedent = true
 				vs = append(vs, V{"C02", "no-cache-fields", "qualified-field-replayed" + sigPath(in),
@@ -374,6 +436,26 @@ func C10Basic(in *Info) (vs []V) {
 		}
 		if !originFailed && !ex.Spec.CancelBefore {
 			vs = append(vs, V{"C10", "error-without-origin-failure", "err", "RoundTrip returned an error although no origin call failed: " + ex.Err.Error() + "; " + ex.Summary()})
+		}
+	}
+	// Every upstream reply that was received is either handed to the caller
+	// (who closed it) or released by the cache: under net/http an unclosed body
+	// keeps its connection checked out, and with a connection limit the next
+	// round trip hangs. Judged at quiescence only.
+	if !ex.Spec.NoWait && !ex.Spec.KeepBody && ex.Panic == "" {
+		for _, c := range ex.Calls() {
+			done, ctxErr, reply := ex.Finished(c)
+			if !done || reply == nil || reply.Err != nil || reply.Hang || ctxErr != "" {
+				continue
+			}
+			if !c.BodyReleased() {
+				where := "foreground"
+				if c.Background {
+					where = "background"
+				}
+				vs = append(vs, V{"C10", "upstream-body-not-released", fmt.Sprintf("%s,status=%dxx", where, reply.Status/100),
+					fmt.Sprintf("the %s upstream reply %s (status %d) was neither handed to the caller nor closed: its connection stays checked out; %s", where, c.Serial, reply.Status, ex.Summary())})
+			}
 		}
 	}
 	return vs
@@ -519,18 +601,20 @@ func C16Own(in *Info) (vs []V) {
 
 func C18(in *Info) (vs []V, antecedent bool) {
 	ex := in.Ex
-	if !in.ReqCC.Has("only-if-cached") || SpecMethod(ex.Spec) != "GET" {
+	if !in.ReqCC.Has("only-if-cached") {
 		return nil, false
 	}
-	if http.Header(ex.Spec.Header).Get("Range") != "" {
-		return nil, false
-	}
+	// whatever the method: "no call to the origin under any circumstances"
+	plain := SpecMethod(ex.Spec) == "GET" && http.Header(ex.Spec.Header).Get("Range") == ""
 	antecedent = true
 	if n := len(ex.Calls()); n > 0 {
 		c := ex.Calls()[0]
 		bg := ""
 		if c.Background {
 			bg = "background,"
+		}
+		if !plain {
+			bg += "method-or-range,"
 		}
 		vs = append(vs, V{"C18", "origin-contacted", bg + storedShape(in), fmt.Sprintf("only-if-cached request caused %d origin call(s); %s", n, ex.Summary())})
 		return vs, true
